@@ -49,6 +49,8 @@ struct Shared {
     log: Mutex<Vec<Arc<WriteRec>>>,
     scanned: AtomicUsize,
     dumped: AtomicUsize,
+    scanned_p: AtomicUsize,
+    seen_p: Mutex<HashSet<(u64, u64, u32)>>,
     seen: Mutex<HashSet<(u64, u64)>>,
     /// `iogate`: device writes issued while the gate is shut wait until `ioopen`
     gate: tokio::sync::watch::Sender<bool>,
@@ -65,6 +67,8 @@ impl Default for Shared {
             log: Default::default(),
             scanned: Default::default(),
             dumped: Default::default(),
+            scanned_p: Default::default(),
+            seen_p: Default::default(),
             seen: Default::default(),
             gate: tokio::sync::watch::channel(false).0,
             rgate: tokio::sync::watch::channel(false).0,
@@ -630,6 +634,32 @@ fn run_script(script: &[&str], n: usize) {
                             }
                             sh.dumped.store(log.len(), Ordering::SeqCst);
                             format!("w[{}]", out.join(","))
+                        }
+                        "ewp" => {
+                            // entries listed by index pages written since the last `ewp`: hash:sequence:partition,
+                            // each triple once (a reinserted entry shows up again, in another partition)
+                            let log = sh.log.lock();
+                            let from = sh.scanned_p.load(Ordering::SeqCst);
+                            let mut seen = sh.seen_p.lock();
+                            let mut out = vec![];
+                            for rec in log[from..].iter() {
+                                if rec.off == 0 && rec.data.len() == PAGE && rec.data.iter().all(|b| *b == 0) {
+                                    // the block was cleaned: what is written to it from now on is a new generation
+                                    seen.retain(|(_, _, p)| *p != rec.part);
+                                    out.push(format!("Z{}", rec.part));
+                                }
+                                if rec.data.len() == index_size {
+                                    if let Some(idx) = BlobIndexReader::read(&rec.data) {
+                                        for i in idx {
+                                            if seen.insert((i.hash, i.sequence, rec.part)) {
+                                                out.push(format!("{}:{}:{}", i.hash, i.sequence, rec.part));
+                                            }
+                                        }
+                                    }
+                                }
+                            }
+                            sh.scanned_p.store(log.len(), Ordering::SeqCst);
+                            format!("e[{}]", out.join(","))
                         }
                         "bev" => {
                             // hook H2: the block manager's events since the last `bev`
